@@ -58,8 +58,14 @@ Fixpoint tlookup (t : term) (tbl : tbl_t) : option term :=
 Definition via (tbl : tbl_t) (t : term) : term :=
   match tlookup t tbl with Some r => r | None => t end.
 
-Definition o_opsem (tbl : tbl_t) (f : string) (a b : term) : term := via tbl (TOp2 f a b).
-Definition o_unsem (tbl : tbl_t) (f : string) (a : term) : term := via tbl (TOp1 f a).
+(* the symbolic elements of source "boom" raise ZeroDivisionError in every operator (class Boom of
+   harness/C01_sym.py); an element operation that raises is the literal "raise:<Exception>" *)
+Definition is_boom (t : term) : bool :=
+  match t with TVar s _ => String.eqb s "boom" | _ => false end.
+Definition o_opsem (tbl : tbl_t) (f : string) (a b : term) : term :=
+  if is_boom a || is_boom b then TLit "raise:ZeroDivisionError" else via tbl (TOp2 f a b).
+Definition o_unsem (tbl : tbl_t) (f : string) (a : term) : term :=
+  if is_boom a then TLit "raise:ZeroDivisionError" else via tbl (TOp1 f a).
 Definition o_attrsem (n : string) (a : term) : term := TAttr n a.
 Definition o_callsem (a : term) (args : list term) (kw : list (string * term)) : term :=
   TCall a args (map fst kw) (map snd kw).
@@ -126,8 +132,12 @@ Definition sobs_eqb (a b : sobs) : bool :=
   | _, _ => false
   end.
 
+(* a Stream built by an operator is a map object: an exception raised for the elements of one position
+   is what next() raises at THAT position, and the following positions are still delivered.  The
+   observer catches it, records TLit "raise:<Exception>" in its place and keeps pulling: the i-th
+   observation is the operator applied to the i-th elements, or the exception it raises. *)
 Definition items_of (o : list term * bool) : sobs :=
-  let '(p, st) := finish o in SItems p st.
+  SItems (fst o) (if snd o then "ended" else "more").
 
 (* ------------------------------------------------------------------ family bin: one dunder call *)
 Record bcase := BC {
